@@ -4,12 +4,49 @@
 package utf8
 
 //@ pure func validSpec(src text) bool
-//@ pure func correctSpec(src text, repl text) text
 //@ func Validate assumed "wrapper of native validate_utf8_fast: a function of the bytes"
 //@   ensures result == validSpec(txt(src))
 //@   ensures len(src) == 0 ==> result
-//@ func CorrectWith assumed "append loop around native validate_utf8; ownership facts only (loop not yet under contract)"
+// CorrectWith(dst, src, repl) = dst ++ (src with every invalid UTF-8 byte replaced by repl):
+// the Go loop stitches the valid stretches and the replacements together exactly as the
+// positions reported by native validate_utf8 say, across "table full" restarts (C20);
+// only dst's spare capacity or a new array is written, the prefix is preserved (C06).
+//@ pure func correctSpec(src text, repl text) text = native.corrSpec(src, repl)
+//@ func CorrectWith props C20,C06,C18 textops
+//@   requires base(dst) != base(src) || base(src) == 0
 //@   modifies dst[_]
 //@   ensures base(result) == base(dst) || fresh(result)
-//@   ensures (len(src) > 0 || base(dst) != 0) ==> base(result) != 0
-//@   ensures len(dst) == 0 ==> txt(result) == correctSpec(txt(src), txt(repl))
+//@   ensures ((len(src) > 0 && len(repl) > 0) || base(dst) != 0) ==> base(result) != 0
+//@   ensures len(result) >= len(dst)
+//@   ensures forall j int :: (0 <= j && j < len(dst)) ==> result[j] == old(dst[j])
+//@   ensures subtxt(result, len(dst), len(result) - len(dst)) == native.corrSpec(old(txt(src)), txt(repl))
+//@   ensures len(dst) == 0 ==> txt(result) == correctSpec(old(txt(src)), txt(repl))
+//@   ensures txt(src) == old(txt(src))
+//@   loop 0: invariant 0 <= sidx && sidx <= len(sstr) && m != nil && fresh(m) && (sidx < len(sstr) ==> m.Sp == 0) && txt(sstr) == old(txt(src0)) && len(sstr) == len(src0)
+//@   loop 0: invariant len(dst0) <= len(dst) && (base(dst) == base(dst0) || fresh(dst)) && (base(dst) == pre(base(dst)) || newer(dst)) && (base(dst0) != 0 ==> base(dst) != 0) && ((sidx > 0 && len(repl) > 0) ==> base(dst) != 0)
+//@   loop 0: invariant forall j int :: (0 <= j && j < len(dst0)) ==> dst[j] == old(dst0[j])
+//@   loop 0: invariant native.tcat(subtxt(dst, len(dst0), len(dst) - len(dst0)), native.corrSpec(subtxt(sstr, sidx, len(sstr) - sidx), txt(repl))) == native.corrSpec(txt(sstr), txt(repl))
+//@   loop 0: assert native.fixSeg(sstr, scur, sidx, m.Vt, i, i, txt(repl)) == subtxt(sstr, scur, sidx - scur)
+//@   loop 0: assert subtxt(dst, len(dst) - (sidx - scur), sidx - scur) == subtxt(sstr, scur, sidx - scur)
+//@   loop 0: assert native.tcat(subtxt(dst, prev(len(dst)), len(dst) - (sidx - scur) - prev(len(dst))), subtxt(dst, len(dst) - (sidx - scur), sidx - scur)) == subtxt(dst, prev(len(dst)), len(dst) - prev(len(dst)))
+//@   loop 0: assert subtxt(dst, prev(len(dst)), len(dst) - prev(len(dst))) == native.fixSeg(sstr, prev(sidx), sidx, m.Vt, 0, i, txt(repl))
+//@   loop 0: assert subtxt(dst, len(dst0), prev(len(dst)) - len(dst0)) == prev(subtxt(dst, len(dst0), len(dst) - len(dst0)))
+//@   loop 0: assert native.tcat(subtxt(dst, len(dst0), prev(len(dst)) - len(dst0)), subtxt(dst, prev(len(dst)), len(dst) - prev(len(dst)))) == subtxt(dst, len(dst0), len(dst) - len(dst0))
+//@   loop 0: assert native.corrSpec(subtxt(sstr, prev(sidx), len(sstr) - prev(sidx)), txt(repl)) == native.tcat(native.fixSeg(sstr, prev(sidx), sidx, m.Vt, 0, i, txt(repl)), native.corrSpec(subtxt(sstr, sidx, len(sstr) - sidx), txt(repl)))
+//@   loop 0: modifies dst[_], m.Sp, m.Vt, sidx
+//@   loop 1: invariant 0 <= i && i <= m.Sp && m.Sp <= len(sstr) && (i == 0 ==> scur == pre(scur)) && pre(scur) <= scur && scur <= sidx && sidx <= len(sstr) && same(m.Vt, pre(m.Vt)) && m.Sp == pre(m.Sp) && sidx == pre(sidx)
+//@   loop 1: invariant forall k int :: (i <= k && k < m.Sp) ==> (scur <= m.Vt[k] && m.Vt[k] < sidx)
+//@   loop 1: invariant forall j int, k int :: (0 <= j && j < k && k < m.Sp) ==> m.Vt[j] < m.Vt[k]
+//@   loop 1: invariant pre(len(dst)) <= len(dst) && (base(dst) == pre(base(dst)) || newer(dst)) && (base(dst) == base(dst0) || fresh(dst)) && (pre(base(dst)) != 0 ==> base(dst) != 0) && ((i > 0 && len(repl) > 0) ==> base(dst) != 0)
+//@   loop 1: invariant forall j int :: (0 <= j && j < pre(len(dst))) ==> dst[j] == pre(dst[j])
+//@   loop 1: invariant len(dst0) <= pre(len(dst)) && subtxt(dst, len(dst0), pre(len(dst)) - len(dst0)) == pre(subtxt(dst, len(dst0), len(dst) - len(dst0)))
+//@   loop 1: invariant native.tcat(subtxt(dst, pre(len(dst)), len(dst) - pre(len(dst))), native.fixSeg(sstr, scur, sidx, m.Vt, i, m.Sp, txt(repl))) == native.fixSeg(sstr, pre(scur), sidx, m.Vt, 0, m.Sp, txt(repl))
+//@   loop 1: assert native.fixSeg(sstr, prev(scur), sidx, m.Vt, prev(i), m.Sp, txt(repl)) == native.tcat(native.tcat(subtxt(sstr, prev(scur), m.Vt[prev(i)] - prev(scur)), txt(repl)), native.fixSeg(sstr, m.Vt[prev(i)] + 1, sidx, m.Vt, prev(i) + 1, m.Sp, txt(repl)))
+//@   loop 1: assert len(dst) == prev(len(dst)) + (m.Vt[prev(i)] - prev(scur)) + len(repl)
+//@   loop 1: assert subtxt(dst, prev(len(dst)) + (m.Vt[prev(i)] - prev(scur)), len(repl)) == txt(repl)
+//@   loop 1: assert subtxt(dst, prev(len(dst)), m.Vt[prev(i)] - prev(scur)) == subtxt(sstr, prev(scur), m.Vt[prev(i)] - prev(scur))
+//@   loop 1: assert subtxt(dst, pre(len(dst)), prev(len(dst)) - pre(len(dst))) == prev(subtxt(dst, pre(len(dst)), len(dst) - pre(len(dst))))
+//@   loop 1: assert native.tcat(subtxt(dst, prev(len(dst)), m.Vt[prev(i)] - prev(scur)), subtxt(dst, prev(len(dst)) + (m.Vt[prev(i)] - prev(scur)), len(repl))) == subtxt(dst, prev(len(dst)), len(dst) - prev(len(dst)))
+//@   loop 1: assert native.tcat(subtxt(dst, pre(len(dst)), prev(len(dst)) - pre(len(dst))), subtxt(dst, prev(len(dst)), len(dst) - prev(len(dst)))) == subtxt(dst, pre(len(dst)), len(dst) - pre(len(dst)))
+//@   loop 1: decreases m.Sp - i
+//@   loop 1: modifies dst[_]
